@@ -89,7 +89,9 @@ async fn oversized_put<S: Storage>(s: &S, g: &mut Gen, out: &mut Vec<Value>, liv
 }
 
 async fn run_calls<S: Storage>(s: &S, g: &mut Gen, len: usize, out: &mut Vec<Value>, live: &mut BTreeMap<String, BTreeSet<u64>>, touched: &mut BTreeSet<String>) {
-    let keyspaces = ["alpha", "beta", "gamma"];
+    // names are all a backend can tell keyspaces by, so they are related as strings: prefixes of one another, the
+    // suffixes a backend may append itself, another case, characters that mean something to SQL / LIKE / paths
+    let keyspaces = ["alpha", "alph", "alpha-kv", "alpha-meta", "Alpha", "alpha%", "al_ha", "alpha/../beta", "bêta ' \" ;--"];
     for _ in 0..len {
         let ks = keyspaces[g.rng.gen_range(0..keyspaces.len())].to_string();
         touched.insert(ks.clone());
